@@ -254,7 +254,12 @@ def runSolve (lines : List String) : List String :=
               | .stop _ => ["info checked stop"]
             (mdetCompare o newLog (ms'.trace.reverse.map Resolvo.MDet.evLine) i ++ chk, ms')
           else ([], ms)
-        go ps' is' (k + 1) md.2 (prior ++ i.calls) (acc ++ [s!"solve {k}"] ++ oracleSolve U p cfg i prior ++ md.1)
+        -- C15 family: the spec-level expectation (two candidates of one package required => Unsolvable; one => solvable)
+        let expect := (caseLines.find? (fun l => l.startsWith "expect ")).map (fun l => (l.drop 7).toString)
+        let ex := match expect with
+          | some e => if i.result == e then [] else [s!"oracle-fail C15 pair-or-single: the problem requires {if e == "unsat" then "two different candidates" else "exactly one candidate"} of one package, expected `{e}` but solve returned `{i.result}`"]
+          | none => []
+        go ps' is' (k + 1) md.2 (prior ++ i.calls) (acc ++ [s!"solve {k}"] ++ oracleSolve U p cfg i prior ++ md.1 ++ ex)
       | _, _ => acc
     go probs impls 0 (mdetInit cfg) [] []
 
